@@ -61,7 +61,7 @@ structure St where
   stuck : Bool := false            -- ghost: a deferred uv_accept on a listener failed in uv__stream_open
   -- ghost history (arrival order)
   arrived : List Fd := []          -- every descriptor accept4/recvmsg ever produced for this stream
-  admitted : List Fd := []         -- stored into accepted_fd / the queue
+  stored : List Fd := []         -- stored into accepted_fd / the queue
   taken : List (Fd × Bool) := []   -- taken by uv_accept, with "client opened ok"
   byClose : List Fd := []          -- closed by uv__stream_close
   dropped : List Fd := []          -- closed in uv__stream_recv_cmsg after ENOMEM
@@ -109,11 +109,11 @@ def recvLoop (s : St) (err : Int) (nalloc : Nat) (failAt : Option Nat) : List Fd
     let s := { s with arrived := s.arrived ++ [fd] }
     if err == 0 then
       match s.acceptedFd with
-      | none => recvLoop { s with acceptedFd := some fd, admitted := s.admitted ++ [fd] } 0 nalloc failAt rest
+      | none => recvLoop { s with acceptedFd := some fd, stored := s.stored ++ [fd] } 0 nalloc failAt rest
       | some _ =>
         let (s', e, al) := queueFd s fd (failAt != some nalloc)
         let nalloc := if al then nalloc + 1 else nalloc
-        if e == 0 then recvLoop { s' with admitted := s'.admitted ++ [fd] } 0 nalloc failAt rest
+        if e == 0 then recvLoop { s' with stored := s'.stored ++ [fd] } 0 nalloc failAt rest
         else recvLoop { s' with dropped := s'.dropped ++ [fd] } e nalloc failAt rest
     else recvLoop { s with dropped := s.dropped ++ [fd] } err nalloc failAt rest
 
@@ -140,7 +140,7 @@ def ioBegin (s : St) (r : AcceptRes) (t : Trick) : St :=
     let s := if s.acceptedFd.isSome then { s with fault := true } else s  -- assert(accepted_fd == -1)
     match r with
     | .ok fd => { s with acceptedFd := some fd, arrived := s.arrived ++ [fd],
-                         admitted := s.admitted ++ [fd], inCb := true }
+                         stored := s.stored ++ [fd], inCb := true }
     | .err e =>
       if e == EMFILE || e == ENFILE then
         if !s.spare then s                     -- uv__emfile_trick returns UV_EMFILE
